@@ -1095,9 +1095,6 @@ impl ParserListener for Screen {
         let mut mode_list = Vec::from(modes);
         if private {
             mode_list = modes.iter().map(|m| m << 5).collect::<Vec<_>>();
-            if mode_list.iter().any(|m| *m == DECSCNM) {
-                self.dirty.extend(0..self.lines);
-            }
         }
 
         self.mode.extend(mode_list.iter());
@@ -1118,6 +1115,7 @@ impl ParserListener for Screen {
 
         // Mark all displayed characters as reverse.
         if mode_list.iter().any(|m| *m == DECSCNM) {
+            self.dirty.extend(0..self.lines);
             for line in self.buffer.values_mut() {
                 // line.default = self.default_char;
                 for x in line.iter_mut() {
@@ -1156,9 +1154,6 @@ impl ParserListener for Screen {
         // private ones.
         if is_private {
             mode_list = modes.iter().map(|m| m << 5).collect::<Vec<_>>();
-            if mode_list.iter().any(|m| *m == DECSCNM) {
-                self.dirty.extend(0..self.lines);
-            }
         }
 
         // retain mode mode_list difference
@@ -1188,6 +1183,7 @@ impl ParserListener for Screen {
 
         // Mark all displayed characters as reverse.
         if mode_list.iter().any(|m| *m == DECSCNM) {
+            self.dirty.extend(0..self.lines);
             for line in self.buffer.values_mut() {
                 // line.default = self.default_char;
                 for x in line.iter_mut() {
